@@ -232,6 +232,7 @@ func TestC10_SnapshotsAndProjection(t *testing.T) {
 		var log []string
 		var lastID uint64
 		excluded, nearGate, bigTotal := false, false, false
+		olderMarked := false
 		lastMsgID := map[string]uint64{}
 
 		observeSnapshots := func(t *rapid.T) {
@@ -379,6 +380,35 @@ func TestC10_SnapshotsAndProjection(t *testing.T) {
 				newValsets(t)
 				log = append(log, "activate("+ch.RefID+")")
 			},
+			// a validator-set update for an older snapshot is attested late: that snapshot (and no other) becomes live on
+			// the chain (attest_update_valset calls SetSnapshotOnChain with the id carried by the delivered message)
+			"lateLiveOnChain": func(t *rapid.T) {
+				if lastID == 0 {
+					t.Skip("no snapshot")
+				}
+				id := uint64(rapid.IntRange(1, int(lastID)).Draw(t, "snapshotID"))
+				ch := rapid.SampledFrom(chains).Draw(t, "chain")
+				if err := c.App.ValsetKeeper.SetSnapshotOnChain(c.Ctx(), id, ch.RefID); err != nil {
+					t.Fatalf("on chain: %v", err)
+				}
+				if _, err := c.Block(); err != nil {
+					t.Fatalf("block: %v", err)
+				}
+				observeSnapshots(t)
+				found := false
+				for _, x := range recorded[id].chains {
+					if x == ch.RefID {
+						found = true
+					}
+				}
+				if !found {
+					t.Fatalf("snapshot %d was marked live on %s but its chain list is %v", id, ch.RefID, recorded[id].chains)
+				}
+				if id != lastID {
+					olderMarked = true
+				}
+				log = append(log, fmt.Sprintf("lateLive(%d,%s)", id, ch.RefID))
+			},
 			"jail": func(t *rapid.T) {
 				i := rapid.IntRange(0, n-1).Draw(t, "val")
 				if jailed[i] || len(jailed) >= n-2 {
@@ -522,7 +552,7 @@ func TestC10_SnapshotsAndProjection(t *testing.T) {
 				allEqual = false
 			}
 		}
-		nt := (!allEqual && excluded) || nearGate || bigTotal
+		nt := (!allEqual && excluded) || nearGate || bigTotal || olderMarked
 		if excluded {
 			labels = append(labels, "validatorExcluded")
 		}
@@ -531,6 +561,9 @@ func TestC10_SnapshotsAndProjection(t *testing.T) {
 		}
 		if bigTotal {
 			labels = append(labels, "total>2^53")
+		}
+		if olderMarked {
+			labels = append(labels, "olderSnapshotMarkedLive")
 		}
 		evid.Case(t.Name(), fmt.Sprintf("stakes=%v active=%v %s", stakes, keys, strings.Join(log, " ")), nt, labels, func() any { return map[string]any{"stakes": stakes, "history": log} })
 	})
